@@ -18,7 +18,7 @@ def setup : List String :=
    "file /c17/w/t/c.c 00", "mtime /c17/w/t/c.c 92", "prog c17/w/t/c.c save=0 inc=- inh=- ssw=0",
    "file /c17/w/t/b.c 00", "mtime /c17/w/t/b.c 95", "prog c17/w/t/b.c save=1 inc=c17/w/t/g.h inh=c17/w/t/c.c ssw=0",
    "file /c17/w/t/a.c 00", "mtime /c17/w/t/a.c 100", "prog c17/w/t/a.c save=1 inc=c17/w/t/h.h inh=c17/w/t/b.c ssw=1",
-   "mtime /simul_efun.c 50", "restart c17/w/t/a c17/w/t/b", "calls f:%61", "expect f:%61 f-0"]
+   "mtime /simul_efun.c 50", "restart c17/w/t/a c17/w/t/b", "calls f:%61", "expect f:%61 f-0", "now 150"]
 def rl : String := "reload c17/w/t/a c17/w/t/b"
 def mkCase (between : List String) : List String := setup ++ [rl] ++ between ++ [rl]
 
@@ -135,5 +135,29 @@ def uq : List String := ["uqsort sz=8 m=3 v=2,0,1,0 c=0--+0-++0"]
 -- a comparison that is not an order: any rearrangement is accepted, a lost element is not
 #guard judge ["uqsort sz=4 m=2 v=1,0,1 c=----"] ["qs 1,1,0"] == []
 #guard has (judge ["uqsort sz=4 m=2 v=1,0,1 c=----"] ["qs 1,0,0"]) "qsort-not-a-permutation"
+
+/-! compiled against a parent that was out of date in memory: b.c edited (120) while b stays loaded, a compiled again
+    and saved (block 2), then everything loaded again (block 3) and a's binary of block 2 used -/
+def staleParentCase : List String :=
+  ["clean /c17/w/t", "file /c17/w/t/b.c 00", "mtime /c17/w/t/b.c 95", "prog c17/w/t/b.c save=0 inc=- inh=- ssw=0",
+   "file /c17/w/t/a.c 00", "mtime /c17/w/t/a.c 100", "prog c17/w/t/a.c save=1 inc=- inh=c17/w/t/b.c ssw=0",
+   "mtime /simul_efun.c 50", "restart c17/w/t/a c17/w/t/b", "now 110", "reload c17/w/t/a c17/w/t/b",
+   "mtime /c17/w/t/b.c 120", "now 130", "reload c17/w/t/a", "now 150", "reload c17/w/t/a c17/w/t/b"]
+def spBlock1 : List String :=
+  ["restarted 50", "begin 1", "lb c17/w/t/a.c stale", "lb c17/w/t/b.c stale", "lb c17/w/t/a.c stale", "sv c17/w/t/a.c 110 inc=-", "end 1"]
+def spBlock3 (a : String) : List String :=
+  ["begin 3", "lb c17/w/t/a.c needs c17/w/t/b.c", "lb c17/w/t/b.c stale", a, "end 3"]
+-- the repaired driver: no binary is written in block 2, block 3 compiles
+#guard judge staleParentCase (spBlock1 ++ ["begin 2", "lb c17/w/t/a.c stale", "sv c17/w/t/a.c notwritten", "end 2"] ++
+  ["begin 3", "lb c17/w/t/a.c stale", "lb c17/w/t/b.c stale", "lb c17/w/t/a.c stale", "sv c17/w/t/a.c 150 inc=-", "end 3"]) == []
+-- the driver before the repair: saved in block 2, used in block 3
+#guard has (judge staleParentCase (spBlock1 ++ ["begin 2", "lb c17/w/t/a.c stale", "sv c17/w/t/a.c 130 inc=-", "end 2"] ++
+  spBlock3 "lb c17/w/t/a.c use")) "stale-binary-used c17/w/t/a.c dep=compiled-against-older-version-of:c17/w/t/b.c"
+-- saved in block 2 but the parent stays as it is in memory (block 3 reloads only a): the binary matches what a compile gives
+#guard judge (staleParentCase.dropLast ++ ["reload c17/w/t/a"])
+  (spBlock1 ++ ["begin 2", "lb c17/w/t/a.c stale", "sv c17/w/t/a.c 130 inc=-", "end 2", "begin 3", "lb c17/w/t/a.c use", "end 3"]) == []
+-- a save that did not happen although every parent was current
+#guard has (judge staleParentCase (["restarted 50", "begin 1", "lb c17/w/t/a.c stale", "lb c17/w/t/b.c stale", "lb c17/w/t/a.c stale",
+  "sv c17/w/t/a.c notwritten", "end 1"])) "save-failed c17/w/t/a.c"
 
 end NV.C17.SpecTests
